@@ -3,7 +3,7 @@ import sys
 
 from props import _cluster
 
-THEOREMS = []
+THEOREMS = ['XmlDiffModel.C07_left_inj', 'XmlDiffModel.C07_right_inj', 'XmlDiffModel.C07_roots', 'XmlDiffModel.C07_members', 'XmlDiffModel.C07_kind_and_unique', 'XmlDiffModel.C07_unique_single']
 PARTIAL = {}
 LEAN_MODULES = ["XmlDiffModel.Props.C07"] if THEOREMS else []
 SOURCES = ['diff.Differ.match', 'diff.Differ.node_ratio', 'diff.Differ.child_ratio', 'diff.Differ.append_match']
